@@ -1,13 +1,819 @@
-//! C11 — not implemented yet.
+//! C11 — any pattern string is safe. Real code: `PatternEncoder::new(p)` and `.encode(w, record)`
+//! under `catch_unwind`, writing into a capturing `encode::Write` that records text and style calls.
+//!
+//! case line (after the id):
+//!   pattern  level  message  target  module?  file?  line?  thread-name?  mdc(k;v,…)
+//! observation (one field; parts separated by a single space):
+//!   outcome  ops  debug-profile  pid  tid  masked  dates(fmt;utc;ok;text,…)
+//! outcome = ok | err | new-only | PANIC:new | PANIC:encode | unstable-date
+//! ops     = items joined by `,` : `T<string>` text run, `S<fg>/<bg>/<intense>` set_style; `-` when
+//!           nothing was encoded to the end.
+//! The environment facts after the ops are INPUTS of the model (what chrono renders for each date
+//! format occurring in the pattern, whether its `Display` fails, ids, build profile).
+use crate::proto::*;
 use crate::rng::Rng;
+use log4rs::encode::{self, pattern::PatternEncoder, Color, Encode, Style};
+use std::io;
+use std::panic::AssertUnwindSafe;
 
-pub fn gen(_rng: &mut Rng, _n: usize, _thorough: bool, _emit: &mut dyn FnMut(String)) {}
+// ------------------------------------------------------------------------------------------------
+// character classes: the non-ASCII sample characters used by the generators and how Rust
+// classifies them (alphabetic, alphanumeric). The Lean driver holds the same table
+// (`Driver/C11.lean: sampleTable`); `assert_char_table` runs before the first case.
+// ------------------------------------------------------------------------------------------------
+pub const SAMPLE_CHARS: &[(char, bool, bool)] = &[
+    ('\u{e9}', true, true),     // é
+    ('\u{df}', true, true),     // ß
+    ('\u{3a9}', true, true),    // Ω
+    ('\u{4e2d}', true, true),   // 中
+    ('\u{aa}', true, true),     // ª (Lo)
+    ('\u{2177}', true, true),   // ⅷ (Nl: alphabetic and numeric)
+    ('\u{663}', false, true),   // ٣ arabic-indic digit
+    ('\u{b2}', false, true),    // ² (No)
+    ('\u{bd}', false, true),    // ½ (No)
+    ('\u{1f600}', false, false), // 😀
+    ('\u{301}', false, false),  // combining acute
+    ('\u{200b}', false, false), // zero width space
+    ('\u{a0}', false, false),   // no-break space
+    ('\u{2192}', false, false), // →
+    ('\u{ff5b}', false, false), // fullwidth {
+];
 
-pub fn exec(_fields: &[&str]) -> String {
-    "unimplemented".to_owned()
+pub fn assert_char_table() {
+    for &(c, alpha, alnum) in SAMPLE_CHARS {
+        if c.is_alphabetic() != alpha || c.is_alphanumeric() != alnum {
+            eprintln!(
+                "sample character U+{:04X}: Rust says alphabetic={} alphanumeric={}, table says {} {}",
+                c as u32,
+                c.is_alphabetic(),
+                c.is_alphanumeric(),
+                alpha,
+                alnum
+            );
+            std::process::exit(3);
+        }
+    }
+    for n in 0u32..128 {
+        let c = char::from_u32(n).unwrap();
+        if c.is_alphabetic() != c.is_ascii_alphabetic() || c.is_alphanumeric() != c.is_ascii_alphanumeric() {
+            eprintln!("ASCII classification differs at {}", n);
+            std::process::exit(3);
+        }
+        let d = c.to_digit(10);
+        if d.is_some() != c.is_ascii_digit() {
+            eprintln!("to_digit differs at {}", n);
+            std::process::exit(3);
+        }
+    }
+    for &(c, _, _) in SAMPLE_CHARS {
+        if c.to_digit(10).is_some() {
+            eprintln!("sample character U+{:04X} is a to_digit(10) digit", c as u32);
+            std::process::exit(3);
+        }
+    }
 }
 
-/// child-process entry point (`verif-harness child c11 …`), for checks that need process-global state
-pub fn child(_args: &[String]) -> i32 {
-    2
+// ------------------------------------------------------------------------------------------------
+// capturing sink
+// ------------------------------------------------------------------------------------------------
+pub enum Item {
+    Data(Vec<u8>),
+    Style(Option<u8>, Option<u8>, Option<bool>),
+}
+
+#[derive(Default)]
+pub struct Cap {
+    pub items: Vec<Item>,
+}
+
+impl io::Write for Cap {
+    fn write(&mut self, buf: &[u8]) -> io::Result<usize> {
+        if let Some(Item::Data(d)) = self.items.last_mut() {
+            d.extend_from_slice(buf);
+        } else {
+            self.items.push(Item::Data(buf.to_vec()));
+        }
+        Ok(buf.len())
+    }
+    fn flush(&mut self) -> io::Result<()> {
+        Ok(())
+    }
+}
+
+fn color_idx(c: &Color) -> u8 {
+    match c {
+        Color::Black => 0,
+        Color::Red => 1,
+        Color::Green => 2,
+        Color::Yellow => 3,
+        Color::Blue => 4,
+        Color::Magenta => 5,
+        Color::Cyan => 6,
+        Color::White => 7,
+    }
+}
+
+impl encode::Write for Cap {
+    fn set_style(&mut self, style: &Style) -> io::Result<()> {
+        self.items.push(Item::Style(
+            style.text.as_ref().map(color_idx),
+            style.background.as_ref().map(color_idx),
+            style.intense,
+        ));
+        Ok(())
+    }
+}
+
+fn mask_digits(s: &str) -> String {
+    s.chars().map(|c| if c.is_ascii_digit() { '#' } else { c }).collect()
+}
+
+fn render_items(items: &[Item], masked: bool) -> String {
+    let mut out: Vec<String> = vec![];
+    for it in items {
+        match it {
+            Item::Data(d) => {
+                if d.is_empty() {
+                    continue;
+                }
+                match std::str::from_utf8(d) {
+                    Ok(s) => {
+                        let s = if masked { mask_digits(s) } else { s.to_owned() };
+                        out.push(format!("T{}", enc_str(&s)))
+                    }
+                    Err(_) => out.push(format!("BADUTF8{}", enc_bytes(d))),
+                }
+            }
+            Item::Style(t, b, i) => out.push(format!(
+                "S{}/{}/{}",
+                enc_opt(*t, |x| x.to_string()),
+                enc_opt(*b, |x| x.to_string()),
+                enc_opt(*i, |x| enc_bool(x).to_owned())
+            )),
+        }
+    }
+    enc_list(",", &out)
+}
+
+// ------------------------------------------------------------------------------------------------
+// which date formats occur in a pattern? A deliberately generous scan (instrumentation, not a
+// model): every `d`/`date` formatter at any depth contributes its first argument's text, for both
+// zones. A format the scan misses is reported by the Lean driver as `need-date` (a loud mismatch).
+// ------------------------------------------------------------------------------------------------
+enum MP {
+    Text(String),
+    Arg(String, Vec<Vec<MP>>),
+    Error(String),
+}
+
+struct Scan {
+    s: Vec<char>,
+    i: usize,
+}
+
+impl Scan {
+    fn peek(&self) -> Option<char> {
+        self.s.get(self.i).copied()
+    }
+    fn consume(&mut self, c: char) -> bool {
+        if self.peek() == Some(c) {
+            self.i += 1;
+            true
+        } else {
+            false
+        }
+    }
+    fn name(&mut self) -> String {
+        let mut n = String::new();
+        match self.peek() {
+            Some(c) if c.is_alphabetic() => {
+                n.push(c);
+                self.i += 1;
+            }
+            _ => return n,
+        }
+        while let Some(c) = self.peek() {
+            if c.is_alphanumeric() {
+                n.push(c);
+                self.i += 1;
+            } else {
+                break;
+            }
+        }
+        n
+    }
+    fn integer(&mut self) {
+        while let Some(c) = self.peek() {
+            if c.is_ascii_digit() {
+                self.i += 1;
+            } else {
+                break;
+            }
+        }
+    }
+    fn parameters(&mut self) {
+        if !self.consume(':') {
+            return;
+        }
+        if self.peek().is_some() {
+            if let Some(&a) = self.s.get(self.i + 1) {
+                if a == '<' || a == '>' {
+                    self.i += 1;
+                }
+            }
+        }
+        if !self.consume('<') {
+            self.consume('>');
+        }
+        self.integer();
+        if self.consume('.') {
+            self.integer();
+        }
+    }
+    fn arg(&mut self) -> Result<Vec<MP>, String> {
+        let mut v = vec![];
+        loop {
+            if self.consume(')') {
+                return Ok(v);
+            }
+            match self.next() {
+                Some(p) => v.push(p),
+                None => return Err("unclosed '('".to_owned()),
+            }
+        }
+    }
+    fn next(&mut self) -> Option<MP> {
+        let c = self.peek()?;
+        match c {
+            '{' => {
+                self.i += 1;
+                if self.consume('{') {
+                    return Some(MP::Text("{".into()));
+                }
+                let name = self.name();
+                let mut args = vec![];
+                let mut failed = None;
+                while self.peek() == Some('(') {
+                    self.i += 1;
+                    match self.arg() {
+                        Ok(a) => args.push(a),
+                        Err(e) => {
+                            failed = Some(e);
+                            break;
+                        }
+                    }
+                }
+                let piece = match failed {
+                    Some(e) => MP::Error(e),
+                    None => {
+                        self.parameters();
+                        MP::Arg(name, args)
+                    }
+                };
+                if self.consume('}') {
+                    Some(piece)
+                } else {
+                    self.i = self.s.len();
+                    Some(MP::Error("expected '}'".into()))
+                }
+            }
+            '}' | '(' | ')' => {
+                self.i += 1;
+                if self.consume(c) {
+                    Some(MP::Text(c.to_string()))
+                } else {
+                    Some(MP::Error(format!("{} '{}'", if c == '}' { "unmatched" } else { "unexpected" }, c)))
+                }
+            }
+            '\\' => {
+                self.i += 1;
+                match self.peek() {
+                    Some(d) if "{}()\\".contains(d) => {
+                        self.i += 1;
+                        Some(MP::Text(d.to_string()))
+                    }
+                    _ => Some(MP::Error("unexpected '\\'".into())),
+                }
+            }
+            _ => {
+                let mut t = String::new();
+                while let Some(d) = self.peek() {
+                    if "{}()\\".contains(d) {
+                        break;
+                    }
+                    t.push(d);
+                    self.i += 1;
+                }
+                Some(MP::Text(t))
+            }
+        }
+    }
+}
+
+fn collect_formats(ps: &[MP], out: &mut Vec<String>) {
+    for p in ps {
+        if let MP::Arg(name, args) = p {
+            if name == "d" || name == "date" {
+                let f = match args.first() {
+                    None => "%+".to_owned(),
+                    Some(a) => {
+                        let mut f = String::new();
+                        for q in a {
+                            match q {
+                                MP::Text(t) => f.push_str(t),
+                                MP::Arg(..) => f.push_str("{ERROR: unexpected formatter}"),
+                                MP::Error(e) => {
+                                    f.push_str("{ERROR: ");
+                                    f.push_str(e);
+                                    f.push('}');
+                                }
+                            }
+                        }
+                        f
+                    }
+                };
+                if !out.contains(&f) {
+                    out.push(f);
+                }
+            }
+            for a in args {
+                collect_formats(a, out);
+            }
+        }
+    }
+}
+
+pub fn date_formats(pattern: &str) -> Vec<String> {
+    let mut sc = Scan { s: pattern.chars().collect(), i: 0 };
+    let mut ps = vec![];
+    while let Some(p) = sc.next() {
+        ps.push(p);
+    }
+    let mut out = vec![];
+    collect_formats(&ps, &mut out);
+    out
+}
+
+/// what chrono says about one format: does `write!("{}", now.format(fmt))` succeed, and the text
+fn chrono_render(fmt: &str, utc: bool) -> (bool, String) {
+    use std::fmt::Write;
+    let r = guarded(AssertUnwindSafe(|| {
+        let mut t = String::new();
+        let ok = if utc {
+            write!(t, "{}", chrono::Utc::now().format(fmt)).is_ok()
+        } else {
+            write!(t, "{}", chrono::Local::now().format(fmt)).is_ok()
+        };
+        (ok, t)
+    }));
+    match r {
+        Ok((true, t)) => (true, t),
+        _ => (false, String::new()),
+    }
+}
+
+fn render_all(fmts: &[String]) -> Vec<(String, bool, bool, String)> {
+    let mut v = vec![];
+    for f in fmts {
+        for utc in [false, true] {
+            let (ok, t) = chrono_render(f, utc);
+            v.push((f.clone(), utc, ok, t));
+        }
+    }
+    v
+}
+
+// ------------------------------------------------------------------------------------------------
+// one case
+// ------------------------------------------------------------------------------------------------
+#[derive(Clone, Debug)]
+pub struct Case {
+    pub pattern: String,
+    pub level: u8,
+    pub message: String,
+    pub target: String,
+    pub module: Option<String>,
+    pub file: Option<String>,
+    pub line: Option<u32>,
+    pub thread: Option<String>,
+    pub mdc: Vec<(String, String)>,
+}
+
+impl Case {
+    pub fn simple(pattern: &str) -> Case {
+        Case {
+            pattern: pattern.to_owned(),
+            level: 3,
+            message: "msg".into(),
+            target: "tgt".into(),
+            module: Some("mod".into()),
+            file: None,
+            line: Some(7),
+            thread: None,
+            mdc: vec![],
+        }
+    }
+    pub fn line(&self) -> String {
+        let mdc: Vec<String> = self.mdc.iter().map(|(k, v)| format!("{};{}", enc_str(k), enc_str(v))).collect();
+        format!(
+            "{}\t{}\t{}\t{}\t{}\t{}\t{}\t{}\t{}",
+            enc_str(&self.pattern),
+            self.level,
+            enc_str(&self.message),
+            enc_str(&self.target),
+            enc_opt(self.module.as_ref(), |s| enc_str(s)),
+            enc_opt(self.file.as_ref(), |s| enc_str(s)),
+            enc_opt(self.line, |n| n.to_string()),
+            enc_opt(self.thread.as_ref(), |s| enc_str(s)),
+            enc_list(",", &mdc)
+        )
+    }
+    pub fn parse(f: &[&str]) -> Option<Case> {
+        if f.len() != 9 {
+            return None;
+        }
+        let opt_str = |s: &str| -> Option<Option<String>> {
+            if s == "-" {
+                Some(None)
+            } else {
+                dec_str(s).map(Some)
+            }
+        };
+        let mut mdc = vec![];
+        for kv in dec_list(',', f[8]) {
+            let (k, v) = kv.split_once(';')?;
+            mdc.push((dec_str(k)?, dec_str(v)?));
+        }
+        Some(Case {
+            pattern: dec_str(f[0])?,
+            level: f[1].parse().ok().filter(|l| (1..=5).contains(l))?,
+            message: dec_str(f[2])?,
+            target: dec_str(f[3])?,
+            module: opt_str(f[4])?,
+            file: opt_str(f[5])?,
+            line: if f[6] == "-" { None } else { Some(f[6].parse().ok()?) },
+            thread: opt_str(f[7])?,
+            mdc,
+        })
+    }
+}
+
+/// the property's sanity bound: encode only when every digit run of the pattern is below 4096
+pub fn widths_sane(pattern: &str) -> bool {
+    let mut run = String::new();
+    let mut ok = true;
+    let mut flush = |run: &mut String| {
+        if !run.is_empty() {
+            let t = run.trim_start_matches('0');
+            if t.len() > 4 || (!t.is_empty() && t.parse::<u32>().unwrap_or(u32::MAX) >= 4096) {
+                ok = false;
+            }
+            run.clear();
+        }
+    };
+    for c in pattern.chars() {
+        if c.is_ascii_digit() {
+            run.push(c);
+        } else {
+            flush(&mut run);
+        }
+    }
+    flush(&mut run);
+    ok
+}
+
+fn level_of(l: u8) -> log::Level {
+    match l {
+        1 => log::Level::Error,
+        2 => log::Level::Warn,
+        3 => log::Level::Info,
+        4 => log::Level::Debug,
+        _ => log::Level::Trace,
+    }
+}
+
+/// runs in the thread the case asks for
+fn run_in_thread(c: &Case) -> String {
+    let debug = cfg!(debug_assertions);
+    let pid = std::process::id();
+    let tid = thread_id::get();
+    let tail = |masked: bool, dates: &[(String, bool, bool, String)]| -> String {
+        let ds: Vec<String> = dates
+            .iter()
+            .map(|(f, utc, ok, t)| {
+                let t = if masked { mask_digits(t) } else { t.clone() };
+                format!("{};{};{};{}", enc_str(f), enc_bool(*utc), enc_bool(*ok), enc_str(&t))
+            })
+            .collect();
+        format!("{} {} {} {} {}", enc_bool(debug), pid, tid, enc_bool(masked), enc_list(",", &ds))
+    };
+    let fmts = date_formats(&c.pattern);
+    let encoder = match guarded(AssertUnwindSafe(|| PatternEncoder::new(&c.pattern))) {
+        Ok(e) => e,
+        Err(_) => return format!("PANIC:new - {}", tail(false, &render_all(&fmts))),
+    };
+    if !widths_sane(&c.pattern) {
+        return format!("new-only - {}", tail(false, &render_all(&fmts)));
+    }
+    log_mdc::clear();
+    for (k, v) in &c.mdc {
+        log_mdc::insert(k.clone(), v.clone());
+    }
+    let encode_once = || -> (Result<bool, String>, Cap) {
+        let mut cap = Cap::default();
+        let r = guarded(AssertUnwindSafe(|| {
+            // `format_args!` must live in the same expression as the record that borrows it
+            encoder
+                .encode(
+                    &mut cap,
+                    &log::Record::builder()
+                        .level(level_of(c.level))
+                        .target(&c.target)
+                        .module_path(c.module.as_deref())
+                        .file(c.file.as_deref())
+                        .line(c.line)
+                        .args(format_args!("{}", c.message))
+                        .build(),
+                )
+                .is_ok()
+        }));
+        (r, cap)
+    };
+    let describe = |r: &Result<bool, String>, cap: &Cap, masked: bool| -> String {
+        match r {
+            Err(_) => "PANIC:encode -".to_owned(),
+            Ok(false) => format!("err {}", render_items(&cap.items, masked)),
+            Ok(true) => format!("ok {}", render_items(&cap.items, masked)),
+        }
+    };
+    let mut result = String::new();
+    // Exact mode: the date texts rendered before and after the encode are equal, so the encode saw
+    // the same texts. Otherwise (sub-second formats) digits are masked; variable-length fractions
+    // (`%+`, `%.f`) make a render shorter once in a thousand, so masked mode additionally wants two
+    // consecutive encodes with equal masked output and equal masked facts, and retries otherwise.
+    for attempt in 0..8 {
+        let before = render_all(&fmts);
+        let (r, cap) = encode_once();
+        let after = render_all(&fmts);
+        if before == after {
+            result = format!("{} {}", describe(&r, &cap, false), tail(false, &before));
+            break;
+        }
+        if attempt < 1 {
+            continue; // a second boundary may have passed: try once more before masking
+        }
+        let masked_eq = before.len() == after.len()
+            && before
+                .iter()
+                .zip(after.iter())
+                .all(|(a, b)| a.0 == b.0 && a.1 == b.1 && a.2 == b.2 && mask_digits(&a.3) == mask_digits(&b.3));
+        let (r2, cap2) = encode_once();
+        let d1 = describe(&r, &cap, true);
+        let d2 = describe(&r2, &cap2, true);
+        if masked_eq && d1 == d2 {
+            result = format!("{} {}", d1, tail(true, &before));
+            break;
+        }
+        if attempt == 7 {
+            result = format!("unstable-date - {}", tail(false, &before));
+        }
+    }
+    log_mdc::clear();
+    result
+}
+
+pub fn run_case(c: &Case) -> String {
+    let c2 = c.clone();
+    let b = std::thread::Builder::new();
+    let b = match &c.thread {
+        Some(n) => b.name(n.clone()),
+        None => b,
+    };
+    match b.spawn(move || run_in_thread(&c2)) {
+        Ok(h) => h.join().unwrap_or_else(|_| "PANIC:harness".to_owned()),
+        Err(_) => "bad-case".to_owned(),
+    }
+}
+
+static TABLE_CHECKED: std::sync::Once = std::sync::Once::new();
+
+pub fn exec(fields: &[&str]) -> String {
+    TABLE_CHECKED.call_once(assert_char_table);
+    match Case::parse(fields) {
+        Some(c) => run_case(&c),
+        None => "bad-case".to_owned(),
+    }
+}
+
+// ------------------------------------------------------------------------------------------------
+// generator
+// ------------------------------------------------------------------------------------------------
+pub const SYNTAX: &[char] = &['{', '}', '(', ')', '\\', ':', '>', '.', 'm', '9'];
+const MUT_CHARS: &[char] = &['{', '}', '(', ')', '\\', ':', '>', '<', '.', '9', '0', 'm', 'd', '_', ' ', '%', '\u{e9}', '\u{663}', '\u{1f600}'];
+
+pub const TEXTS: &[&str] = &[
+    "", "a", "hello world", "h\u{e9}llo", "\u{4e2d}\u{6587}", "\u{1f600}", "e\u{301}", "a{b}c", "(x)\\", "tab\there",
+    "0123456789", "x::y", "\u{a0}", "{ERROR: no}", "%Y",
+];
+
+pub fn random_record(rng: &mut Rng, pattern: &str) -> Case {
+    let opt = |rng: &mut Rng| -> Option<String> {
+        if rng.chance(1, 3) {
+            None
+        } else {
+            Some((*rng.pick(TEXTS)).to_owned())
+        }
+    };
+    let mut mdc = vec![];
+    for k in ["k", "user_id", "cl\u{e9}", ""] {
+        if rng.chance(1, 3) {
+            mdc.push((k.to_owned(), (*rng.pick(TEXTS)).to_owned()));
+        }
+    }
+    Case {
+        pattern: pattern.to_owned(),
+        level: rng.range(1, 5) as u8,
+        message: (*rng.pick(TEXTS)).to_owned(),
+        target: (*rng.pick(TEXTS)).to_owned(),
+        module: opt(rng),
+        file: opt(rng),
+        line: if rng.chance(1, 3) { None } else { Some(*rng.pick(&[0u32, 7, 132, 4294967295])) },
+        thread: if rng.chance(1, 2) { None } else { Some((*rng.pick(&["main", "w\u{f6}rker", "t-1", "x y"])).to_owned()) },
+        mdc,
+    }
+}
+
+const NAMES: &[&str] = &[
+    "d", "date", "f", "file", "h", "highlight", "D", "debug", "R", "release", "l", "level", "L", "line", "m", "message",
+    "M", "module", "P", "pid", "i", "tid", "n", "t", "target", "T", "thread", "I", "thread_id", "X", "mdc", "",
+    "x", "dd", "m9", "\u{e9}", "m\u{663}", "\u{663}", "H", "N",
+];
+const SPECS: &[&str] = &[
+    "", "", "", ":5", ":>5", ":<5", ":.3", ":2.4", ":*>6.8", ":\u{e9}<4", ":}>3", ":<<3", ":>>3", ":0>3", ":07", ":.0",
+    ":0", ":4.2", ":>4.2", ":", ":.", ":5.", ":>", ":x", ":5x", ":-5", ": >3", ":{>3", ":\\>3", ":(<2", ":)<2", "::>2",
+    ":4095", ":4096", ":.4095",
+];
+const DATE_FORMATS: &[&str] = &[
+    "%Y-%m-%d %H:%M:%S", "%Y", "%H:%M", "%+", "%s", "%e %b", "%%", "", "plain", "%Y-%m-%dT%H:%M:%S%z", "%Q", "%", "%4",
+    "%Y %\u{e9}", "%.3f", "%3f", "%f", "%:z", "%#z", "%-d", "%_H", "%0e", "%^a", "%Ez", "%Oy", "%::z", "%:::z",
+];
+
+/// a pattern that is (mostly) valid; depth bounds the nesting of arguments
+pub fn valid_pattern(rng: &mut Rng, depth: u32) -> String {
+    let mut s = String::new();
+    let n = rng.range(0, 4);
+    for _ in 0..n {
+        match rng.below(10) {
+            0 | 1 => s.push_str(*rng.pick(&["a", "hello ", " - ", "\u{e9}", "\u{4e2d}", "9", ":", ">", ".", "%", "\u{1f600}", "_"])),
+            2 => s.push_str(*rng.pick(&["{{", "}}", "((", "))", "\\{", "\\}", "\\(", "\\)", "\\\\"])),
+            _ => {
+                let name = *rng.pick(NAMES);
+                s.push('{');
+                s.push_str(name);
+                match name {
+                    "d" | "date" => {
+                        if rng.chance(2, 3) {
+                            s.push('(');
+                            s.push_str(*rng.pick(DATE_FORMATS));
+                            s.push(')');
+                            if rng.chance(1, 2) {
+                                s.push('(');
+                                s.push_str(*rng.pick(&["utc", "local", "UTC", "", "cet", "ut{{c", "{m}", "utc x"]));
+                                s.push(')');
+                            }
+                        }
+                    }
+                    "h" | "highlight" | "D" | "debug" | "R" | "release" | "" => {
+                        let k = if rng.chance(9, 10) { 1 } else { rng.below(3) };
+                        for _ in 0..k {
+                            s.push('(');
+                            if depth > 0 {
+                                s.push_str(&valid_pattern(rng, depth - 1));
+                            } else {
+                                s.push_str("x");
+                            }
+                            s.push(')');
+                        }
+                    }
+                    "X" | "mdc" => {
+                        let k = if rng.chance(9, 10) { rng.range(1, 2) } else { rng.below(4) };
+                        for _ in 0..k {
+                            s.push('(');
+                            s.push_str(*rng.pick(&["k", "user_id", "cl\u{e9}", "", "nokey", "a{{b", "{m}", "k\\)", "dflt"]));
+                            s.push(')');
+                        }
+                    }
+                    _ => {
+                        if rng.chance(1, 12) {
+                            s.push_str("(x)");
+                        }
+                    }
+                }
+                s.push_str(*rng.pick(SPECS));
+                s.push('}');
+            }
+        }
+    }
+    s
+}
+
+pub fn mutate(rng: &mut Rng, p: &str) -> String {
+    let mut cs: Vec<char> = p.chars().collect();
+    let k = rng.range(1, 3);
+    for _ in 0..k {
+        let syn: Vec<usize> = (0..cs.len()).filter(|&i| "{}()\\:<>.".contains(cs[i]) || cs[i].is_ascii_digit()).collect();
+        match rng.below(4) {
+            0 if !syn.is_empty() => {
+                let i = *rng.pick(&syn);
+                cs.remove(i);
+            }
+            1 => {
+                let i = rng.below(cs.len() as u64 + 1) as usize;
+                cs.insert(i, *rng.pick(MUT_CHARS));
+            }
+            2 if !syn.is_empty() => {
+                let i = *rng.pick(&syn);
+                let c = cs[i];
+                cs.insert(i, c);
+            }
+            3 if cs.len() >= 2 && !syn.is_empty() => {
+                let i = *rng.pick(&syn);
+                let j = if i + 1 < cs.len() { i + 1 } else { i - 1 };
+                cs.swap(i, j);
+            }
+            _ => {
+                let i = rng.below(cs.len() as u64 + 1) as usize;
+                cs.insert(i, *rng.pick(MUT_CHARS));
+            }
+        }
+    }
+    cs.into_iter().collect()
+}
+
+fn exhaustive(len: usize, emit: &mut dyn FnMut(String)) {
+    // all strings over SYNTAX of length exactly `len`
+    let n = SYNTAX.len();
+    let mut idx = vec![0usize; len];
+    loop {
+        let s: String = idx.iter().map(|&i| SYNTAX[i]).collect();
+        emit(Case::simple(&s).line());
+        let mut k = len;
+        loop {
+            if k == 0 {
+                return;
+            }
+            k -= 1;
+            idx[k] += 1;
+            if idx[k] < n {
+                break;
+            }
+            idx[k] = 0;
+        }
+    }
+}
+
+pub fn gen(rng: &mut Rng, n: usize, thorough: bool, emit: &mut dyn FnMut(String)) {
+    // 1. every string over the ten syntax symbols up to the length bound
+    let bound = if thorough { 6 } else { 4 };
+    for len in 0..=bound {
+        exhaustive(len, emit);
+    }
+    // 2. widths around and beyond usize
+    for w in [
+        "99999999999999999999", "18446744073709551615", "18446744073709551616", "18446744073709551617",
+        "184467440737095516150", "000000000000000000000000000007", "4095", "4096", "00004095", "9223372036854775808",
+        "100000000000000000000000000000000000000",
+    ] {
+        for shape in ["{m:W}", "{m:.W}", "{m:>W.3}", "{m:3.W}", "a{l}b{m:W}c", "{(x{m:W}y)}", "{h({m:.W})}", "W", "{m}W", "{d(%Y W)}", "{m:W"] {
+            emit(Case::simple(&shape.replace('W', w)).line());
+        }
+    }
+    // 3. every strftime directive letter and a few modifiers inside {d(...)}
+    let mut dirs: Vec<String> = vec![];
+    for c in ('a'..='z').chain('A'..='Z') {
+        dirs.push(format!("%{}", c));
+    }
+    for d in ["%+", "%%", "%3f", "%6f", "%9f", "%.3f", "%.6f", "%.9f", "%.f", "%:z", "%::z", "%:::z", "%#z", "%-d", "%_d", "%0d", "%", "%1", "% ", "%\u{e9}", "%.", "%.3", "%:", "%-", "%5f", "%.5f", "%Y%", "%%%"] {
+        dirs.push(d.to_owned());
+    }
+    for d in &dirs {
+        for shape in ["{d(F)}", "{d(F)(utc)}", "x{l}{date(F)(local)}y", "{d(a F b):>30}", "{D({d(F)})}", "{R({d(F)})}", "{h({d(F)})}"] {
+            emit(Case::simple(&shape.replace('F', d)).line());
+        }
+    }
+    // 4. the error classes, with rendering text before and after
+    for p in [
+        "a}b", "a(b", "a)b", "a\\b", "a\\", "{m", "{m:5", "{m(", "{m(x", "{x}", "{m(x)}", "{d(a)(b)(c)}", "{d(%Y)(cet)}", "{d(%Y)()}",
+        "{d(%Y)({m})}", "{X}", "{X()}", "{X({m})}", "{X(k)()}", "{X(k)({m})}", "{X(a)(b)(c)}", "{h}", "{h(a)(b)}", "{()()}", "{}", "{thread_id}",
+        "{X(a}b)}", "{X(k)(a}b)}", "{d(a}b)}", "{d({m})}", "pre {l} {x} post {m}", "{l}{m(}tail", "{h(a{x}b)}", "{(a}b):5}",
+    ] {
+        emit(Case::simple(p).line());
+        emit(Case::simple(&format!("lit {{l}} {}", p)).line());
+    }
+    // 5. random: valid patterns and their mutations, random records, non-ASCII everywhere
+    for i in 0..n {
+        let p = valid_pattern(rng, if thorough { 4 } else { 3 });
+        let p = if i % 3 == 0 { p } else { mutate(rng, &p) };
+        emit(random_record(rng, &p).line());
+    }
 }
